@@ -138,6 +138,17 @@ class SetV(Arr):
         return "{" + "; ".join(sorted("%s : %s∈%s" % (k, b, c) if b else k for (b, c, k) in self.gens)) + "}"
 
 
+class BagV(Arr):
+    """A sequence built by m pushes per iteration of ONE loop over `cls` (m >= 2), possibly sorted afterwards: only its length
+    (m·|cls|), and — once sorted and deduplicated — the SET of its elements are known; it cannot be indexed."""
+    def __init__(self, cls, keys, sorted_=False):
+        self.cls, self.keys, self.sorted_ = str(cls), tuple(keys), sorted_
+        Arr.__init__(self, ("bag",), lambda i: _unsupported("indexing a sequence built by several pushes per iteration"), name="bag")
+
+    def key(self):
+        return "bag[" + "; ".join("%s : §s∈%s" % (k, self.cls) for k in self.keys) + "]"
+
+
 def _unsupported(what):
     raise Undecided(what)
 
@@ -195,6 +206,20 @@ def call(I, c, e, env):
             I.update(var, path, "=", SetV(cur.gens + ((None, None, val.expr.key()),)), env)
             return Cond("key", "inserted")
         raise Undecided("insert into %r" % (cur,))
+    if name in ("sort", "sort_unstable", "dedup") and len(args_e) == 1:
+        try:
+            var, path = I.place(args_e[0], env)
+            cur = I.read_place(var, path, env)
+        except (NotAPlace, Undecided) as ex_:
+            cur = None
+        if isinstance(cur, BagV) and (not I.loops or var in I.loops[-1].inner_vars):
+            if name == "dedup":
+                if not cur.sorted_:
+                    raise Undecided("dedup of an unsorted sequence")
+                I.update(var, path, "=", SetV(tuple(("§s", cur.cls, k_) for k_ in cur.keys)), env)
+            else:
+                I.update(var, path, "=", BagV(cur.cls, cur.keys, True), env)
+            return UNIT
     if name == "push" and ("Vec" in (c.get("impl_self") or "") or "SmallVec" in (c.get("impl_self") or "")):
         val = I.eval(args_e[1], env)
         var, path = I.place(args_e[0], env)
@@ -308,15 +333,26 @@ def do_push(I, var, path, val, env):
 
 def _apply_push(I, var, path, val, lc, gs, env):
     cur = I.read_place(var, path, env)
+    k, cls = lc.binder, lc.cls
+    prev = getattr(cur, "pushed_in", None)
+    if prev is not None and prev[0] is lc and not gs and isinstance(val, Num) and all(isinstance(v_, Num) for v_ in prev[1]):
+        # a further unconditional push in the same iteration: the sequence is no longer indexable by the loop class, but its length
+        # and its set of elements are known
+        vals = prev[1] + [val]
+        out = BagV(cls, [v_.expr.subst({k: "§s"}).key() for v_ in vals])
+        out.pushed_in = (lc, vals)
+        I.update(var, path, "=", out, env, summarised=True)
+        return
     if not (isinstance(cur, ListV) and not cur.items):
         raise Undecided("push in a loop onto a non-empty sequence")
     if gs:
         raise Undecided("conditional push in a loop")
-    k, cls = lc.binder, lc.cls
 
     def at(i, _v=val, _k=k):
         return subst_val(_v, {_k: i})
-    I.update(var, path, "=", Arr((cls,), at, name="pushed"), env, summarised=True)
+    out = Arr((cls,), at, name="pushed")
+    out.pushed_in = (lc, [val])
+    I.update(var, path, "=", out, env, summarised=True)
 
 
 _orig_apply = Interp.apply_summarised
@@ -584,6 +620,8 @@ def call_values(I, c, args, e=None, env=None):
         return SetV()
     if name == "len" and args and isinstance(args[0], SetV):
         return Num(Expr.atom(("call", "card", args[0].key())))
+    if name == "len" and args and isinstance(args[0], BagV):
+        return Num(Expr.const(len(args[0].keys)) * num_size(args[0].cls).expr)
     if name == "is_empty" and args and isinstance(args[0], Arr) and not isinstance(args[0], (ListV, SetV)):
         return Cond("key", "empty(%s)" % (args[0].classes[0],))
     if name == "len" and args and isinstance(args[0], (Arr, Struct)):
